@@ -100,6 +100,7 @@ def run(ctx, run):
     bits.check_vps(ctx, run)
     from .. import sweep
     sweep.run(ctx, run, [UNIT_VPS, UNIT_830, "src/pdc.c"], {}, 90)
+    _bcd_digit_bounds(ctx, run)
 
 def _neg_selftest(ctx, run):
     from .. import selftest
@@ -157,3 +158,36 @@ def _hamming_tables(ctx, run):
     else:
         run.holds("RF-TAB", key, "all 256 entries of _vbi_hamm8_inv[] agree with _vbi_hamm8_fwd[]: 144 decode to their nibble, 112 are "
                   "negative", loc)
+
+
+def _bcd_digit_bounds(ctx, run):
+    """`E - 0x11...1` (n ones) is the 'digits minus one each' idiom of the 8/30 format 1 decoder:
+    E must be an n digit value, i.e. at most 16^n - 1 (the upper nibble of its first byte is not part
+    of the field and must be masked off)."""
+    from .. import absint
+    f = ctx.prog.need("vbi_decode_teletext_8301_local_time", UNIT_830)
+    run.touch(f)
+    an = ctx.analysis(f, False)
+    n = 0
+    for i, e in enumerate(f.exprs):
+        if e["k"] == "bin" and e["op"] == "-" and flow.elem_pos(f).get(i) is not None:
+            k = ex.const(f, e["c"][1])
+            if k is None or k < 0x111 or set(hex(k)[2:]) != {"1"}:
+                continue
+            digits = len(hex(k)[2:])
+            st = an.state_before_expr(i)
+            if st is None:
+                continue
+            v = an.eval(st, e["c"][0])
+            n += 1
+            key = "RF-IVL:vbi_decode_teletext_8301_local_time:bcd-%d-digits" % digits
+            cap = 16 ** digits - 1
+            if v[1] is not None and v[1] <= cap:
+                run.holds("RF-IVL", key, "the %d digit BCD field is assembled from at most %d bits (value <= 0x%X)" % (digits, 4 * digits, v[1]),
+                          ex.loc(f, i))
+            else:
+                run.violation("RF-IVL", key, "the %d digit BCD field is assembled with bits above digit %d (value up to 0x%X): reserved "
+                              "bits of the packet enter the number, a valid packet with those bits set is refused (or decoded to a "
+                              "different date)" % (digits, digits, v[1] if v[1] is not None else -1), ex.loc(f, i),
+                              witness={"digits": digits, "upper_bound": v[1]})
+    run.floor("BCD fields in the 8/30 format 1 decoder", n, 2)
